@@ -306,6 +306,35 @@ def rule_A5(ctx):
             if not ok:
                 r.finding(p, "defer-args:%s|%s" % (_fmt(left), _fmt(right)), loc(f["hir"]), "`%s` offers the host defer_op(%s, %s): %s" % (name, _fmt(left), _fmt(right), why))
     r.floor("distinct defer_op argument shapes", n, 22)
+    # two-operand value constructors: the operand popped second is the left / first component
+    right_first = spec("templates.json").get("right_first_runtime", {"make_pair": "Pair is emitted right operand first"})
+    n_ctor = 0
+    for p in sorted(instruction_fns(F)):
+        f = F.fns[p]
+        name = f["name"]
+        if name == "make_list":
+            continue
+        try:
+            outs = _events_of(ctx, model, p)
+        except (ai.StateCapExceeded, rt.Unmodelled):
+            continue
+        shapes = set()
+        for rv, ts in outs:
+            for e in ts[3]:
+                if e[0] == "ctor":
+                    a = list(e[2:])
+                    if len(a) == 1 and isinstance(a[0], tuple) and a[0] and a[0][0] == "t":
+                        a = list(a[0][1])
+                    if len(a) == 2 and _sym(a[0]) and _sym(a[1]):
+                        shapes.add((e[1], a[0], a[1]))
+        for ctor, a, b in sorted(shapes, key=repr):
+            n_ctor += 1
+            want = (("s", "pop", 1), ("s", "pop", 2)) if name in right_first else (("s", "pop", 2), ("s", "pop", 1))
+            ok = (a, b) == want
+            r.examine((p, ctor, repr((a, b))), True, {"fn": name, "constructor": ctor, "arguments": [_fmt(a), _fmt(b)], "ok": ok})
+            if not ok:
+                r.finding(p, "ctor-args:%s(%s,%s)" % (ctor, _fmt(a), _fmt(b)), loc(f["hir"]), "`%s` builds its result with %s(%s, %s); the left/first component must be %s and the right/second %s" % (name, ctor, _fmt(a), _fmt(b), _fmt(want[0]), _fmt(want[1])))
+    r.floor("two-operand constructor calls on popped operands", n_ctor, 5)
     return r
 
 
